@@ -6,6 +6,8 @@ use tokio::io::{self, AsyncRead, AsyncReadExt};
 use self::{bins::read_bins, metadata::read_metadata};
 use crate::binning_index::index::{ReferenceSequence, reference_sequence::index::BinnedIndex};
 
+const MAX_PREALLOCATED_LEN: usize = 1 << 12;
+
 pub(super) async fn read_reference_sequences<R>(
     reader: &mut R,
     depth: u8,
@@ -17,7 +19,9 @@ where
         usize::try_from(n).map_err(|e| io::Error::new(io::ErrorKind::InvalidData, e))
     })?;
 
-    let mut reference_sequences = Vec::with_capacity(n_ref);
+    // The count is read from the input and is not yet validated, i.e., only a limited capacity is
+    // preallocated, and the collection grows as entries are read.
+    let mut reference_sequences = Vec::with_capacity(n_ref.min(MAX_PREALLOCATED_LEN));
 
     for _ in 0..n_ref {
         let reference_sequence = read_reference_sequence(reader, depth).await?;
